@@ -27,6 +27,20 @@ func (c *Ctx) GC(fn *ssa.Function) *GCNF {
 	return g
 }
 
+// GCWith builds (and caches under opts.Tag) the normal form of fn with additional known callees expanded in place.
+func (c *Ctx) GCWith(fn *ssa.Function, opts BuildOpts) *GCNF {
+	if c.gcsOpt == nil {
+		c.gcsOpt = map[string]*GCNF{}
+	}
+	k := opts.Tag + "|" + c.p.FuncKey(fn)
+	if g, ok := c.gcsOpt[k]; ok {
+		return g
+	}
+	g := BuildGCNFOpts(c.p, c.E(), fn, opts)
+	c.gcsOpt[k] = g
+	return g
+}
+
 func gcStrings(gcs []*GC) []string {
 	out := make([]string, len(gcs))
 	for i, g := range gcs {
